@@ -204,6 +204,24 @@ Definition mk_obj (c : str) (fields : list str) (kvs : list (key * pv)) : result
        | None => Err EType                                                       (* missing required argument *)
        end.
 
+Section MapM.
+  Context {A B : Type} (f : A -> result B).
+  (* [f x for x in l], the first error wins *)
+  Fixpoint mapM (l : list A) : result (list B) :=
+    match l with
+    | [] => Ok []
+    | x :: r => match f x with
+                | Err e => Err e
+                | Ok v => match mapM r with Err e => Err e | Ok vs => Ok (v :: vs) end
+                end
+    end.
+End MapM.
+Definition rbind {A B} (r : result A) (k : A -> result B) : result B :=
+  match r with Ok a => k a | Err e => Err e end.
+Fixpoint somes {A} (l : list (option A)) : list A :=
+  match l with [] => [] | Some a :: r => a :: somes r | None :: r => somes r end.
+Definition is_type_key (k : key) : bool := key_eqb k (KS s_type).
+
 Section FromJson.
   Variable q : quirks.
   Variable ct : classtab.
@@ -211,26 +229,16 @@ Section FromJson.
   (* json_conversion.resolve_typenames: a pass over the whole tree before anything is built *)
   Fixpoint resolve (j : jv) : result unit :=
     match j with
-    | JList l =>
-        (fix go (l : list jv) : result unit :=
-           match l with
-           | [] => Ok tt
-           | x :: r => match resolve x with Ok _ => go r | Err e => Err e end
-           end) l
+    | JList l => rbind (mapM resolve l) (fun _ => Ok tt)
     | JDict d =>
-        let go :=
-          (fix go (d : list (key * jv)) : result unit :=
-             match d with
-             | [] => Ok tt
-             | (_, x) :: r => match resolve x with Ok _ => go r | Err e => Err e end
-             end) in
+        let children := rbind (mapM (fun kv => resolve (snd kv)) d) (fun _ => Ok tt) in
         match lookup (KS s_type) d with
-        | None => go d
+        | None => children
         | Some (JStr c) =>
             if special_typename c then Err EUnmodelled
             else match slookup c ct with
                  | None => Err EType                 (* Cannot load class *)
-                 | Some _ => go d
+                 | Some _ => children
                  end
         | Some _ => Ok tt                            (* '_type' is not a str: subtree left alone *)
         end
@@ -245,56 +253,37 @@ Section FromJson.
     | JFloat f => Ok (PFloat f)
     | JStr s => Ok (PStr s)
     | JList l =>
-        let go :=
-          (fix go (l : list jv) : result (list pv) :=
-             match l with
-             | [] => Ok []
-             | x :: r => match build x with
-                         | Err e => Err e
-                         | Ok v => match go r with Err e => Err e | Ok vs => Ok (v :: vs) end
-                         end
-             end) in
-        let as_list := match go l with Ok vs => Ok (PList vs) | Err e => Err e end in
+        let as_list := rbind (mapM build l) (fun vs => Ok (PList vs)) in
         match l with
         | JStr m :: r =>
             if str_eqb m s_marker then
               match r with
               | [] => if q_empty_tuple q then Err EValue else Ok (PTuple [])
-              | _ => match go r with Ok vs => Ok (PTuple vs) | Err e => Err e end
+              | _ => rbind (mapM build r) (fun vs => Ok (PTuple vs))
               end
             else as_list
         | _ => as_list
         end
     | JDict d =>
-        let go :=
-          (fix go (skip : bool) (d : list (key * jv)) : result (list (key * pv)) :=
-             match d with
-             | [] => Ok []
-             | (k, x) :: r =>
-                 if skip && key_eqb k (KS s_type) then go skip r
-                 else match build x with
-                      | Err e => Err e
-                      | Ok v => match go skip r with Err e => Err e | Ok kvs => Ok ((k, v) :: kvs) end
-                      end
-             end) in
+        (* the members in order; with skip, the '_type' entry has been popped *)
+        let members (skip : bool) :=
+          rbind (mapM (fun kv => if skip && is_type_key (fst kv) then Ok None
+                                 else rbind (build (snd kv)) (fun v => Ok (Some (fst kv, v)))) d)
+                (fun l => Ok (somes l)) in
         match lookup (KS s_type) d with
-        | None => match go false d with Ok kvs => Ok (PDict kvs) | Err e => Err e end
+        | None => rbind (members false) (fun kvs => Ok (PDict kvs))
         | Some (JStr c) =>
             if special_typename c then Err EUnmodelled
             else match slookup c ct with
                  | None => Err EType
-                 | Some fields => match go true d with Ok kvs => mk_obj c fields kvs | Err e => Err e end
+                 | Some fields => rbind (members true) (mk_obj c fields)
                  end
         | Some JNull => Err EAssert                  (* assert factory_fn is not None *)
         | Some _ => Err EType                        (* object is not callable *)
         end
     end.
 
-  Definition from_json (j : jv) : result pv :=
-    match resolve j with
-    | Err e => Err e
-    | Ok _ => build j
-    end.
+  Definition from_json (j : jv) : result pv := rbind (resolve j) (fun _ => build j).
 End FromJson.
 
 (* --- the string form: int keys become 'n_:<int>' before json.dumps and back after json.loads --- *)
@@ -321,43 +310,31 @@ Definition decode_key (k : key) : result key :=
   end.
 Fixpoint decode_keys (j : jv) : result jv :=
   match j with
-  | JList l =>
-      match (fix go (l : list jv) : result (list jv) :=
-               match l with
-               | [] => Ok []
-               | x :: r => match decode_keys x with
-                           | Err e => Err e
-                           | Ok v => match go r with Err e => Err e | Ok vs => Ok (v :: vs) end
-                           end
-               end) l with
-      | Ok vs => Ok (JList vs)
-      | Err e => Err e
-      end
+  | JList l => rbind (mapM decode_keys l) (fun vs => Ok (JList vs))
   | JDict d =>
-      match (fix go (d : list (key * jv)) : result (list (key * jv)) :=
-               match d with
-               | [] => Ok []
-               | (k, x) :: r => match decode_key k with
-                                | Err e => Err e
-                                | Ok k' => match decode_keys x with
-                                           | Err e => Err e
-                                           | Ok v => match go r with Err e => Err e | Ok kvs => Ok ((k', v) :: kvs) end
-                                           end
-                                end
-               end) d with
-      | Ok kvs => Ok (JDict (dict_of_pairs kvs))
-      | Err e => Err e
-      end
+      rbind (mapM (fun kv => rbind (decode_key (fst kv)) (fun k' =>
+                             rbind (decode_keys (snd kv)) (fun v => Ok (k', v)))) d)
+            (fun kvs => Ok (JDict (dict_of_pairs kvs)))
   | _ => Ok j
   end.
 
 (* what json.dumps receives / what from_json_str does with what json.loads returns *)
 Definition to_sj (v : pv) : jv := encode_keys (to_json v).
 Definition of_sj (q : quirks) (ct : classtab) (j : jv) : result pv :=
-  match decode_keys j with
-  | Err e => Err e
-  | Ok j' => from_json q ct j'
-  end.
+  rbind (decode_keys j) (from_json q ct).
+
+(* to_json_str / from_json_str: the JSON text layer (Python's json module) is a parameter *)
+Section Text.
+  Variable text : Type.
+  Variable dumps : jv -> text.            (* json.dumps *)
+  Variable loads : text -> option jv.     (* json.loads; None: JSONDecodeError *)
+  Definition to_str (v : pv) : text := dumps (to_sj v).
+  Definition of_str (q : quirks) (ct : classtab) (t : text) : result pv :=
+    match loads t with
+    | Some j => of_sj q ct j
+    | None => Err EValue
+    end.
+End Text.
 
 (* --- the domain of the round-trip theorems ------------------------------------------------ *)
 Definition is_marker_str (v : pv) : bool := match v with PStr s => str_eqb s s_marker | _ => false end.
@@ -427,6 +404,17 @@ Fixpoint str_ok (v : pv) : bool :=
   | PList l | PTuple l => forallb str_ok l
   | PDict d => forallb (fun kv => key_str_ok (fst kv) && str_ok (snd kv)) d
   | PObj c fs => no_surrogate_pair c && forallb (fun kv => key_str_ok (KS (fst kv)) && str_ok (snd kv)) fs
+  | _ => true
+  end.
+
+(* what json.dumps is given by to_json_str: string keys only, distinct, and no string in which a high
+   surrogate is directly followed by a low one *)
+Fixpoint sj_ok (j : jv) : bool :=
+  match j with
+  | JStr s => no_surrogate_pair s
+  | JList l => forallb sj_ok l
+  | JDict d => keys_nodup d &&
+               forallb (fun kv => match fst kv with KS s => no_surrogate_pair s | _ => false end && sj_ok (snd kv)) d
   | _ => true
   end.
 
